@@ -481,8 +481,13 @@ def _activate_plugin_worlds() -> Iterator[None]:
     # Ensure plugin registry is populated
     import_all_plugins()
     with ExitStack() as stack:
+        # JAX memoises traces per function object (jax.checkpoint, jit, custom_jvp).
+        # A trace made outside this scope must not be replayed inside it, and one
+        # made inside (with the substitutes installed) must not survive it.
+        stack.callback(jax.clear_caches)
         # Legacy patches first
         stack.enter_context(apply_monkey_patches())
+        jax.clear_caches()
         # New-style leaf bindings
         leaf_prims: list[jcore_ext.Primitive] = []
         for plugin_instance in PLUGIN_REGISTRY.values():
